@@ -81,7 +81,8 @@ def run_case(case, swapped, pname, variant, occ=0):
     # record operations over WIDER tables whose shared fields come in a different order in b: a has (f, p, q, g), b has
     # (f, q, p, g) resp. (g, q, f, p) - first and last field in place, the middle ones permuted; p and q are constant
     a4 = [['f', 'p', 'q', 'g']] + [[r[0], u'P', u'Q', r[1]] for r in a[1:]]
-    for bh, pick in ((['f', 'q', 'p', 'g'], lambda r: [r[0], u'Q', u'P', r[1]]), (['g', 'q', 'f', 'p'], lambda r: [r[1], u'Q', r[0], u'P'])):
+    extra = not kw or kw.get('buffersize') == 1          # the argument-spelling layers run on the plain and on one spilling variant
+    for bh, pick in (() if not extra else ((['f', 'q', 'p', 'g'], lambda r: [r[0], u'Q', u'P', r[1]]), (['g', 'q', 'f', 'p'], lambda r: [r[1], u'Q', r[0], u'P']))):
         b4 = [bh] + [pick(r) for r in b[1:]]
         for label, fn, want in (('recordcomplement', lambda: etl.recordcomplement(a4, b4, **kw), case['comp']),
                                 ('recordcomplement(strict)', lambda: etl.recordcomplement(a4, b4, strict=True, **kw), case['compstrict']),
@@ -96,7 +97,7 @@ def run_case(case, swapped, pname, variant, occ=0):
             if not ok:
                 problems.append('%s over 4-field tables (a: f,p,q,g; b: %s) delivered %r, spec rows (f, g) = %r' % (label, ','.join(bh), got, want))
     # `strict` spelled with other falsy / truthy values
-    for sv, which in ((0, 'comp'), (None, 'comp'), (u'', 'comp'), (1, 'compstrict'), (u'yes', 'compstrict')):
+    for sv, which in (() if not extra else ((0, 'comp'), (None, 'comp'), (u'', 'comp'), (1, 'compstrict'), (u'yes', 'compstrict'))):
         expect('complement(strict=%r)' % (sv,), lambda: etl.complement(a, b, strict=sv, **kw), case[which])
         expect('recordcomplement(strict=%r)' % (sv,), lambda: etl.recordcomplement(a, b_sw, strict=sv, **kw), case[which])
         if not kw:
